@@ -875,7 +875,269 @@ def check_C04(tier, seed):
                   exhaustive=False)
 
 
+
+# ------------------------------------------------------------------------------------------------ C20 / C19
+
+def obsdump(cases):
+    """cases: list of {cfg, hist, est}; returns list of {json, live, ids, ...} from the real getters"""
+    inp = '\n'.join(json.dumps(c) for c in cases) + '\n'
+    r = subprocess.run([binpath('obsdump')], input=inp, stdout=subprocess.PIPE, stderr=subprocess.PIPE, text=True, cwd=ROOT, timeout=600)
+    if r.returncode != 0:
+        raise ToolError('obsdump failed: ' + r.stderr[-1000:])
+    return [json.loads(l) for l in r.stdout.splitlines() if l.strip()]
+
+
+SIMPLE_CASE = {"cfg": {"own": {"id": 5}, "ports": [{"p2p": False}]}, "hist": [{"e": "t", "k": "rcpt", "p": 1}], "est": {"off": "0", "delay": "0"}}
+
+
+def tlc_sequences(name, maxlen, robust=True, simulate=None, seed=1):
+    cfg = os.path.join(outdir('cfg'), name + '.cfg')
+    write_cfg(cfg, constants={'Robust': robust, 'MaxLen': maxlen}, invariants=['NeverWedged', 'Answers'], properties=['BackToAccepting'],
+              action_constraint='Emit', view='View')
+    extra = []
+    if simulate:
+        extra = ['-simulate', 'num=%d' % simulate, '-depth', str(5 * maxlen + 2), '-seed', str(seed)]
+    stats, text = run_tlc('Exporter.tla', cfg, name, workers=4, timeout=900, extra=extra)
+    seqs = []
+    seen = set()
+    for ln in text.splitlines():
+        if ln.startswith('<<"E", '):
+            inner = json.loads(ln[len('<<"E", '):-2])
+            e = json.loads(inner)
+            key = json.dumps(e['seq'])
+            if key not in seen:
+                seen.add(key)
+                seqs.append(e)
+    return stats, seqs
+
+
+def check_C20(tier, seed):
+    import expdrv, random
+    t0 = time.time()
+    build('dev')
+    v = Verdict('C20')
+    acc = Acc()
+    q = tier == 'quick'
+    valid = obsdump([SIMPLE_CASE])[0]['json']
+    # the model: required behaviour holds; the accept loop as originally found is wedged (negative control at design level)
+    stats, seqs = tlc_sequences('C20-exhaustive', 2 if q else 3)
+    acc.add('C20-exhaustive', stats)
+    if stats['violated']:
+        v.add({'kind': 'tlc', 'key': 'tlc:' + ','.join(stats['violated']), 'detail': 'Exporter.tla: required behaviour violated', 'replay': write_tlc_counterexample('C20', 'C20-exhaustive', stats)})
+    stats_s, seqs_s = tlc_sequences('C20-sim', 4, simulate=120 if q else 2500, seed=seed)
+    seqs_long = [s for s in seqs_s if len(s['seq']) >= 3]
+    rnd = random.Random(seed)
+    rnd.shuffle(seqs_long)
+    seqs_long = seqs_long[:(60 if q else 2000)]
+    cfgn = os.path.join(outdir('cfg'), 'C20-asfound.cfg')
+    write_cfg(cfgn, constants={'Robust': False, 'MaxLen': 2}, invariants=['NeverWedged'], view='View')
+    st_bad, _ = run_tlc('Exporter.tla', cfgn, 'C20-asfound', workers=2, timeout=300)
+    if 'NeverWedged' not in st_bad['violated']:
+        raise ToolError('negative control: the accept loop as originally found should violate NeverWedged in the model')
+    # the real exporter
+    rd = outdir('replay', 'C20'); vlib.clean_dir(rd)
+    ran = 0
+    fails = 0
+    kinds = {}
+    samples = []
+    for e in seqs + seqs_long:
+        ran += 1
+        rig = expdrv.Rig(binpath('exporter'), os.path.join(OUT, 'exprig'), valid)
+        problem = None
+        try:
+            if not rig.start_clean():
+                raise ToolError('the exporter did not start answering')
+            log = []
+            for (client, sock), want in zip(e['seq'], e['expect']):
+                got = rig.request(client, 'valid' if sock == '-' else sock)
+                log.append([client, sock, want, got])
+                if got != want and not (want == 'closed' and got == 'closed'):
+                    problem = 'connection %s/%s: expected %s, observed %s' % (client, sock, want, got)
+                    break
+                for k in (client, sock):
+                    kinds[k] = kinds.get(k, 0) + 1
+            if problem is None:
+                got = rig.request('get', 'valid', timeout=2.0)
+                log.append(['probe', 'valid', '200', got])
+                if got != '200':
+                    problem = 'well-formed request after %s: %s (exporter alive: %s)' % (e['seq'], got, rig.alive())
+                else:
+                    t1 = rig.cpu_ticks(); time.sleep(0.15); t2 = rig.cpu_ticks()
+                    if t1 is not None and t2 is not None and t2 - t1 > 8:
+                        problem = 'exporter burns CPU while idle after %s (%d ticks in 150 ms)' % (e['seq'], t2 - t1)
+                    if not rig.alive():
+                        problem = 'exporter exited after %s' % (e['seq'],)
+            if len(samples) < 3 and len(e['seq']) >= 2:
+                samples.append({'sequence': e['seq'], 'observed': log})
+        finally:
+            rig.close()
+        if problem:
+            fails += 1
+            pth = os.path.join(rd, 'exporter-%d.json' % fails)
+            json.dump({'kind': 'exporter', 'sequence': e['seq'], 'expected': e['expect'], 'observed': log, 'detail': problem}, open(pth, 'w'), indent=1)
+            if fails <= 5:
+                v.add({'kind': 'predicate', 'key': 'C20/wedged', 'detail': problem, 'replay': pth})
+    acc.edges = ran
+    acc.samples = samples
+    cov = {'evaluations': ran, 'distinct_nontrivial': ran, 'sequences_exhaustive_up_to_length': 2 if q else 3, 'sequences_sampled_longer': len(seqs_long),
+           'behaviours_exercised': kinds, 'model_negative_control_as_found_is_wedged': True}
+    rc = v.finish()
+    cov.update({'rule': 'TLC enumerates every sequence of connection behaviours (client x observation socket) up to the stated length from Exporter.tla, with the expected '
+                        'observation per connection, and samples longer ones by simulation; each sequence is executed against a fresh process of the real exporter, followed '
+                        'by a well-formed request that must be answered 200 within 2 s with the process alive and idle; every sequence is distinct',
+                'samples': samples or [{'note': 'none'}], 'states': acc.states, 'transitions': acc.transitions, 'suites': acc.suites, 'known_findings_seen': v.known})
+    write_evidence('C20', tier, seed, 'fault_enumeration', cov, ['the exporter binary is the library entry point statime_linux::metrics_exporter_main built from /repo (the shipped binary is the same three-line wrapper)',
+                                                                 'a client that stays connected and silent for ever is outside the property ("and then goes away")', 'loopback TCP, 2 s deadline'],
+                   time.time() - t0, len(v.violations))
+    return rc
+
+
+
+def collect_metric_states(name, consts, limit, seed):
+    """TLC (MCMetrics) -> list of distinct {hist, exp} (distinct by expected metrics)"""
+    c = dict(consts)
+    cfg = os.path.join(outdir('cfg'), name + '.cfg')
+    write_cfg(cfg, constants=c, view='View', constraint='Bound', action_constraint='EmitMetrics')
+    stats, text = run_tlc('MCMetrics.tla', cfg, name, workers=8, timeout=1500)
+    if stats['errors']:
+        raise ToolError('TLC error in %s: %s' % (name, stats['errors'][:2]))
+    out = {}
+    for ln in text.splitlines():
+        if ln.startswith('<<"E", '):
+            e = json.loads(json.loads(ln[len('<<"E", '):-2]))
+            k = json.dumps(e['exp'], sort_keys=True)
+            if k not in out or len(e['hist']) < len(out[k]['hist']):
+                out[k] = e
+    lst = sorted(out.values(), key=lambda e: json.dumps(e['exp'], sort_keys=True))
+    import random
+    random.Random(seed).shuffle(lst)
+    return stats, lst[:limit], len(out)
+
+
+def check_C19(tier, seed):
+    import expdrv
+    t0 = time.time()
+    build('dev')
+    v = Verdict('C19')
+    acc = Acc()
+    q = tier == 'quick'
+    lim = 60 if q else 600
+    suites = [
+        ('C19-boundary', port_consts(['annP', 'annO', 'bmca', 'trcpt', 'q', 'so'], PCfg=('<-', 'PCfg_A'), AnnVar='{1, 2, 3, 4}', Depth=5 if q else 6), world([e2e(), e2e()])),
+        ('C19-path-trace', port_consts(['x_ann', 'annP', 'bmca', 'trcpt'], PCfg=('<-', 'PCfg_A'), PTrace=True, Prefix=('<-', 'PrefixSlave'), Depth=3 if q else 4), world([e2e(), e2e()], ptrace=True)),
+        ('C19-p2p', port_consts(['tdreq', 'ts', 'pd', 'trcpt', 'annP', 'bmca'], PCfg=('<-', 'PCfg_AP'), MaxRep=1, Depth=6 if q else 7), world(asym([e2e(), p2p()]))),
+    ]
+    ests = [(0, 0), (1 << 32, 1), (-(1 << 32), 3 << 30), (999_000 << 32, 400_000 << 32), (-(1_001_000 << 32) - 12345, (123 << 32) + 999),
+            ((10_000_000_000 << 32) + 0xfffffff, (10_000_000_000 << 32) - 1), (-(10_000_000_000 << 32) - 1, 5), (-(7_123_456_789 << 32), (9_999_999_999 << 32) + 77)]
+    cases = []
+    for name, c, w in suites:
+        stats, states, ndist = collect_metric_states(name, c, lim, seed)
+        acc.add(name, stats)
+        acc.suites[-1]['distinct_metric_states'] = ndist
+        for i, e in enumerate(states):
+            off, dl = ests[(i + len(cases)) % len(ests)]
+            cases.append({'cfg': dict(w, seed=seed), 'hist': e['hist'], 'est': {'off': str(off), 'delay': str(dl)}, 'exp': e['exp'], 'suite': name})
+    dumps = obsdump([{k: c[k] for k in ('cfg', 'hist', 'est')} for c in cases])
+    rd = outdir('replay', 'C19'); vlib.clean_dir(rd)
+    rig = expdrv.Rig(binpath('exporter'), os.path.join(OUT, 'exprig19'), dumps[0]['json'])
+    fails = 0
+    samples = []
+    checked_values = 0
+    try:
+        if not rig.start_clean():
+            raise ToolError('the exporter did not start answering')
+        for case, d in zip(cases, dumps):
+            rig.valid_json = d['json'].encode()
+            status = rig.request('get', 'valid')
+            problems = []
+            raw = getattr(rig, 'last', b'')
+            head, _, body = raw.partition(b'\r\n\r\n')
+            if status != '200':
+                problems.append('HTTP status %s' % status)
+            else:
+                cl = [int(l.split(b':')[1]) for l in head.split(b'\r\n') if l.lower().startswith(b'content-length')]
+                if not cl or cl[0] != len(body):
+                    problems.append('Content-Length %s but the body has %d octets' % (cl, len(body)))
+                metrics, probs, declared = expdrv.parse_exposition(body.decode('utf-8', 'replace'))
+                problems += probs
+                exp = case['exp']
+                ids = d['ids']
+                own = ids[str(case['cfg']['own']['id'])]
+                def get(name, **labels):
+                    r = [val for (n, lab, val) in metrics if n == name and all(lab.get(k) == vv for k, vv in labels.items())]
+                    return r
+                def want(name, value, **labels):
+                    nonlocal checked_values
+                    checked_values += 1
+                    got = get(name, **labels)
+                    if len(got) != 1:
+                        problems.append('%s%s: %d samples' % (name, labels, len(got)))
+                    elif float(got[0]) != float(value):
+                        problems.append('%s%s = %s, the instance has %s' % (name, labels, got[0], value))
+                for k, val in exp.items():
+                    if k.startswith('statime_') and not isinstance(val, (list, dict)):
+                        if k == 'statime_current_utc_offset_seconds':
+                            if val == 99999:
+                                if get(k):
+                                    problems.append('utc offset exported although it is not valid')
+                            else:
+                                want(k, val, clock_identity=own)
+                        elif k.startswith('statime_grandmaster'):
+                            want(k, val, clock_identity=own, parent_clock_identity=ids[str(exp['parent'][0])], parent_port_number=str(exp['parent'][1]))
+                        else:
+                            want(k, val, clock_identity=own)
+                for i, code in enumerate(exp['statime_port_state']):
+                    want('statime_port_state', code, port=str(i + 1), clock_identity=own)
+                # path trace: entries numbered from the grandmaster, the local clock last
+                for i, node in enumerate(exp['path']):
+                    want('statime_path_trace_list', i, node=ids[str(node)])
+                want('statime_path_trace_list', len(exp['path']), node='self')
+                if len(get('statime_path_trace_list')) != len(exp['path']) + 1:
+                    problems.append('path trace list has %d samples, expected %d' % (len(get('statime_path_trace_list')), len(exp['path']) + 1))
+                # values that come from the filter and the port: compared with the live getters across the JSON hop
+                off = d['est']['off_ns'] if d['slave_contribution'] else 0.0
+                dl = d['est']['delay_ns'] if d['slave_contribution'] else 0.0
+                for name, val in (('statime_offset_from_master_nanoseconds', off), ('statime_mean_delay_nanoseconds', dl)):
+                    got = get(name, clock_identity=own)
+                    checked_values += 1
+                    if len(got) != 1 or abs(float(got[0]) - val) > 1e-9 * max(1.0, abs(val)):
+                        problems.append('%s = %s, the live estimate is %r ns' % (name, got, val))
+                if d['slave_contribution'] != exp['has_slave']:
+                    problems.append('contribution of the slave port present: %s, model: %s' % (d['slave_contribution'], exp['has_slave']))
+                for i, isp2p in enumerate(exp['p2p']):
+                    got = get('statime_mean_link_delay_nanoseconds', port=str(i + 1))
+                    if isp2p:
+                        md = d['live']['md'][i]
+                        checked_values += 1
+                        if len(got) != 1 or md is None or abs(float(got[0]) - int(md) / 65536.0) > 1e-6:
+                            problems.append('mean link delay of port %d = %s, the port has %s (2^-16 ns)' % (i + 1, got, md))
+                    elif got:
+                        problems.append('mean link delay exported for E2E port %d' % (i + 1))
+            if len(samples) < 3 and len(case['hist']) >= 3:
+                samples.append({'history': case['hist'][-3:], 'expected_metrics': {k: case['exp'][k] for k in list(case['exp'])[:8]}, 'http_status': status})
+            if problems:
+                fails += 1
+                pth = os.path.join(rd, 'metrics-%d.json' % fails)
+                json.dump({'kind': 'metrics', 'cfg': case['cfg'], 'hist': case['hist'], 'expected': case['exp'], 'problems': problems, 'response': raw.decode('utf-8', 'replace')[:6000]}, open(pth, 'w'), indent=1)
+                if fails <= 5:
+                    v.add({'kind': 'mismatch', 'key': 'C19/metric', 'detail': '; '.join(problems[:3]), 'replay': pth})
+    finally:
+        rig.close()
+    rc = v.finish()
+    cov = {'evaluations': len(cases), 'distinct_nontrivial': len(cases), 'metric_values_compared': checked_values,
+           'rule': 'TLC explores three instance configurations (boundary clock with parent changes / quality / slave-only, path trace with lists of 0..128 entries, P2P port with peer '
+                   'delay exchanges) and attaches to every state the metrics it must show (Metrics.tla); states with distinct expected metrics are kept; for each the history is '
+                   'replayed on real objects, the observable state assembled from the real getters as the daemon does, serialised, served on a unix socket to the real exporter, '
+                   'fetched over HTTP and every metric compared; filter estimates cycle through 0, +-1 ns, +-1 ms, +-10 s (more than 64 bits in fixed point)',
+           'samples': samples or [{'note': 'none'}], 'states': acc.states, 'transitions': acc.transitions, 'suites': acc.suites}
+    write_evidence('C19', tier, seed, 'exploration', cov, ['the exporter binary is statime_linux::metrics_exporter_main built from /repo', 'the assembly of the observable state mirrors statime-linux/src/main.rs (not callable as a function)',
+                                                           'conformance of the real getters with the specification state is established by the other checks'], time.time() - t0, len(v.violations))
+    return rc
+
+
 CHECKS = {
+    'C19': check_C19,
+    'C20': check_C20,
     'C04': check_C04,
     'C16': check_C16,
     'C18': check_C18,
